@@ -15,7 +15,7 @@
 From SC Require Import Base.Prelude Msg.Msg Msg.Schema Msg.Path Masks.Get Masks.GetProofs
   Resource.Impl Resource.Pull Servers.Kinds Servers.GenericServer Servers.GenericServerProofs
   Servers.Trace Servers.TraceProofs Servers.Stack Servers.StackProofs
-  Servers.TraceOf Servers.C14Judge Gen.Servers.
+  Servers.TraceOf Servers.C14Judge Servers.C14JudgeProofs Gen.Servers.
 Section C14.
   Variable M : Type.
   Variable m_eqb : M -> M -> bool.
@@ -160,6 +160,18 @@ Theorem C14_through_stack_identity : forall (A : Type) (l : list A), through_sta
 Proof. exact @through_stack_id. Qed.
 Print Assumptions C14_through_stack_identity.
 
+(* ---- the correspondence judge: an observation that agrees with the model run (rule taken from the
+   observed Update responses) satisfies C14_ok, whenever it is well-formed: register values are
+   messages of the resource type, rejected Updates carry statuses (a recovered panic is what makes
+   the two differ), read masks have no empty segment.  So for well-formed observations verdict 2 is
+   impossible and verdict 0 means both ---- *)
+Theorem C14_judge_sound : forall server init evs streams,
+  C14_guard (KTrace server init evs streams) = true ->
+  trace_wf server init evs = true ->
+  agrees (KTrace server init evs streams) = true -> C14_ok (KTrace server init evs streams) = true.
+Proof. exact judge_sound. Qed.
+Print Assumptions C14_judge_sound.
+
 (* ---- defects ---- *)
 (* fixed (4 handlers: count Update/Reset, emergency, air temperature memory device): the handler
    asserted the result type before looking at err; a rejected write was a panic, not a status *)
@@ -173,14 +185,16 @@ Proof.
   exists (fun _ _ => inr 3). exists (srv_init unit (fun n => n) (Some 7)). split; reflexivity.
 Qed.
 
-(* recorded (openclosepb, class 1): GetPositions applies the read mask to every position instead of
-   to the OpenClosePositions message -- the masked Get is not the projection of the full Get *)
-Theorem C14_openclose_masked_get_refuted :
+(* fixed 406d0ba (openclosepb): GetPositions applied the read mask to every position instead of to the
+   OpenClosePositions message -- the masked Get was not the projection of the full Get.  The v0
+   variant of the model reproduces the recorded observation, which fails the property; the current
+   model does not produce it *)
+Theorem C14_openclose_masked_get_v0_refuted :
   exists init evs streams,
-    agrees (KTrace "openclosepb.ModelServer/OpenCloseApi.Positions" init evs streams) = true /\
-    C14_guard (KTrace "openclosepb.ModelServer/OpenCloseApi.Positions" init evs streams) = true /\
-    C14_ok (KTrace "openclosepb.ModelServer/OpenCloseApi.Positions" init evs streams) = false /\
-    judge (KTrace "openclosepb.ModelServer/OpenCloseApi.Positions" init evs streams) = 101.
+    agrees_v0 (KTrace oc_server init evs streams) = true /\
+    C14_guard (KTrace oc_server init evs streams) = true /\
+    C14_ok (KTrace oc_server init evs streams) = false /\
+    agrees (KTrace oc_server init evs streams) = false.
 Proof.
   exists (VM [("states", VL [VM [("direction", VS (SEnum 1)); ("open_percent", VS (SF32 1065353216))]])]).
   exists [TGet "dev" (Some [["preset"]])
@@ -188,19 +202,30 @@ Proof.
   exists []. vm_compute. repeat split; reflexivity.
 Qed.
 
-(* recorded (openclosepb, class 2): PullPositions opened while no position exists never sends
-   anything: no first value, and no later update either *)
-Theorem C14_openclose_dead_pull_refuted :
+(* fixed cb6a657 (openclosepb): PullPositions opened while no position exists never sent anything: no
+   first value, and no later update either *)
+Theorem C14_openclose_dead_pull_v0_refuted :
   exists init evs streams,
-    agrees (KTrace "openclosepb.ModelServer/OpenCloseApi.Positions" init evs streams) = true /\
-    C14_ok (KTrace "openclosepb.ModelServer/OpenCloseApi.Positions" init evs streams) = false /\
-    judge (KTrace "openclosepb.ModelServer/OpenCloseApi.Positions" init evs streams) = 102.
+    agrees_v0 (KTrace oc_server init evs streams) = true /\
+    C14_ok (KTrace oc_server init evs streams) = false /\
+    agrees (KTrace oc_server init evs streams) = false.
 Proof.
   exists (VM []).
   exists [TOpen "dev" None false;
           TUpdate "dev" (inl (VM [("states", VL [VM [("direction", VS (SEnum 1))]])]))].
   exists [([], None)]. vm_compute. repeat split; reflexivity.
 Qed.
+
+(* ... and what the repaired server shows on the same two histories is accepted *)
+Example C14_openclose_repaired :
+  judge (KTrace oc_server
+           (VM [("states", VL [VM [("direction", VS (SEnum 1)); ("open_percent", VS (SF32 1065353216))]])])
+           [TGet "dev" (Some [["preset"]]) (inl (Some (VM [])))] []) = 0 /\
+  judge (KTrace oc_server (VM [])
+           [TOpen "dev" None false;
+            TUpdate "dev" (inl (VM [("states", VL [VM [("direction", VS (SEnum 1))]])]))]
+           [([("dev", VM []); ("dev", VM [("states", VL [VM [("direction", VS (SEnum 1))]])])], None)]) = 0.
+Proof. vm_compute. split; reflexivity. Qed.
 
 (* ---- non-vacuity: a history with two registered names, a masked stream, a rejected Update, an
    unchanged value under an equivalence and a cancel; the model's trace is accepted and changes ---- *)
